@@ -322,6 +322,10 @@ pub fn run_close_on_failing_device(report: &mut Report) {
     for workers in [1usize, 2] {
         for kind in ["record writes fail", "every write fails", "fsyncs fail"] {
             for pending in [1usize, 3] {
+                // (the slow cases - a thousand retries each - are kept few: the watchdog's margin must hold on a busy machine)
+                if workers == 2 && pending == 1 {
+                    continue;
+                }
                 all.push((workers, kind, pending));
             }
         }
